@@ -83,9 +83,10 @@ class SchemaCollection(UnicodeMixin):
             existing.root.children += schema.root.children
             # The moved children still resolve prefixes through their own
             # schema node; do not rebind prefixes the existing node's content
-            # already uses.
+            # already uses - bound on the node itself or above it.
             for prefix, uri in schema.root.nsprefixes.items():
-                existing.root.nsprefixes.setdefault(prefix, uri)
+                if existing.root.resolvePrefix(prefix, None) is None:
+                    existing.root.nsprefixes[prefix] = uri
 
     @staticmethod
     def __keep_element_form(root, target):
